@@ -163,19 +163,9 @@ func oracleConcrete(p *sx.Program, sk *Skeleton, inst any) (bool, error) {
 	return ok.IsTrue(), nil
 }
 
-// normalizeForOracle converts any Go representation of a JSON value to the canonical one
-// with exact numbers (json.Number text or float64).
-func normalizeForOracle(v any) any {
-	b, err := json.Marshal(v)
-	if err != nil {
-		return v
-	}
-	out, err := refsem.ParseJSON(b)
-	if err != nil {
-		return v
-	}
-	return out
-}
+// normalizeForOracle converts any Go representation of a JSON value to the oracle's
+// constant form with exact numbers.
+func normalizeForOracle(v any) any { return Canon(v) }
 
 // RunValidateSkeleton explores Validate on a symbolic instance for one skeleton and
 // decides, path by path, agreement with the reference semantics.
